@@ -97,6 +97,11 @@ func nextPacket(r io.Reader) (*parser.Packet, error) {
 			expectedLen = int(l)
 			state = ReadPayload
 		case ReadPayload:
+			// The buffer of the frame is allocated before its payload is read.
+			// Do not allocate more than the limit because a frame header says so.
+			if lr, ok := r.(*limitedReader); ok && int64(expectedLen) > lr.limit {
+				return nil, ErrLimitReached
+			}
 			return parser.DecodeWithLen(r, isBinary, expectedLen)
 		}
 	}
